@@ -62,7 +62,7 @@ func VerifC08Step() {
 	verif.MapOrderInsertion(true)
 	k := 2
 	s1 := anyScript("a1", k, []int{opEmitConst, opThrow, opEmitNaN}, []int{retBindings, retNumber})
-	g := anyScript("g", 1, []int{opEmitConst}, []int{retBindings, retNull})
+	g := anyScript("g", 1, []int{opEmitConst, opThrow}, []int{retBindings, retNull, retNumber})
 	s2 := anyScript("a2", 1, []int{opEmitConst, opThrow}, []int{retBindings})
 	spec := &core.Spec{
 		Name: "c08",
